@@ -58,6 +58,35 @@ fn boundary_class(goto_off: i16, exc: Option<(u16, u16, u16)>, line_pc: Option<u
 	b
 }
 
+/// hand-assembled class (version 47) whose method `goto 4; nop; return` carries an old-format (CLDC) `StackMap` attribute with
+/// the given entries `(offset, locals, stack)`; a verification type is `(tag, u16 operand)` (operand used by tags 7 and 8)
+fn cldc_class(entries: &[(u16, Vec<(u8, u16)>, Vec<(u8, u16)>)], with_lines: bool) -> Vec<u8> {
+	let mut b: Vec<u8> = vec![0xca, 0xfe, 0xba, 0xbe, 0, 0, 0, 47];
+	let utf8 = |b: &mut Vec<u8>, s: &str| { b.push(1); b.extend((s.len() as u16).to_be_bytes()); b.extend(s.as_bytes()); };
+	b.extend(8u16.to_be_bytes());
+	utf8(&mut b, "A"); b.extend([7, 0, 1]);
+	for s in ["m", "()V", "Code", "StackMap", "LineNumberTable"] { utf8(&mut b, s); } // 3..=7
+	b.extend([0, 0x21, 0, 2, 0, 0, 0, 0, 0, 0]);
+	b.extend([0, 1, 0, 9, 0, 3, 0, 4, 0, 1]);
+	let mut code: Vec<u8> = vec![0, 1, 0, 1, 0, 0, 0, 5, 0xa7, 0, 4, 0x00, 0xb1, 0, 0];
+	let mut sm: Vec<u8> = (entries.len() as u16).to_be_bytes().to_vec();
+	for (off, locals, stack) in entries {
+		sm.extend(off.to_be_bytes());
+		for list in [locals, stack] {
+			sm.extend((list.len() as u16).to_be_bytes());
+			for (tag, v) in list { sm.push(*tag); if *tag == 7 || *tag == 8 { sm.extend(v.to_be_bytes()); } }
+		}
+	}
+	let mut attrs: Vec<(u16, Vec<u8>)> = Vec::new();
+	if with_lines { attrs.push((7, vec![0, 1, 0, 3, 0, 9])); }
+	attrs.push((6, sm));
+	code.extend((attrs.len() as u16).to_be_bytes());
+	for (n, a) in attrs { code.extend(n.to_be_bytes()); code.extend((a.len() as u32).to_be_bytes()); code.extend(a); }
+	b.extend([0, 5]); b.extend((code.len() as u32).to_be_bytes()); b.extend(code);
+	b.extend([0, 0]);
+	b
+}
+
 fn minimal_method(code: GCode) -> GClass {
 	GClass { minor: 0, major: 52, access: 0x21, name: c01model::js("A"), super_: Some(c01model::js("java/lang/Object")),
 		methods: vec![GMethod { access: 9, name: c01model::js("m"), desc: c01model::js("()V"), code: Some(code), ..Default::default() }], ..Default::default() }
@@ -213,6 +242,16 @@ fn gen(r: &mut Rng, tier: Tier, out: &mut Out) {
 			g2.name = c01model::js(&n);
 			out.op("read", &[Sexp::bytes(&assemble(&g2, &Choices::plain(), &mut Rng::new(1)))]);
 		}
+	}
+	// ---- 5d. old-format `StackMap` attribute: entries in any order, duplicates, offsets at / beyond the end, uninitialized labels
+	for i in 0..(if thorough { 2000 } else { 150 }) {
+		let n = r.below(4);
+		let entries: Vec<(u16, Vec<(u8, u16)>, Vec<(u8, u16)>)> = (0..n).map(|_| {
+			let vt = |r: &mut Rng| -> Vec<(u8, u16)> { (0..r.below(3)).map(|_| { let t = *r.pick(&[0u8, 1, 2, 3, 4, 5, 6, 7, 8, 8, 9]); (t, if t == 7 { 2 } else { *r.pick(&[0u16, 3, 4, 5, 1]) }) }).collect() };
+			(*r.pick(&[0u16, 3, 4, 4, 0, 1, 5, 6]), vt(r), vt(r))
+		}).collect();
+		out.stats.hit("directed:cldc-stackmap");
+		out.op("read", &[Sexp::bytes(&cldc_class(&entries, i % 2 == 0))]);
 	}
 	// directed malformed cases: overflowing local-variable range (panic site), bad magic, version 67.1, empty input
 	out.op("read", &[Sexp::bytes(&[])]);
